@@ -261,6 +261,12 @@ fn check(case: &Case, run: &Run) -> Vec<Finding> {
 }
 
 pub fn run_prop(cli: &Cli) -> i32 {
+    run_filtered(cli, None)
+}
+
+/// `only`: keep only violations whose signature starts with this prefix (used by ./check C12 for
+/// the clause "the service is asked about exactly the claimed user").
+pub fn run_filtered(cli: &Cli, only: Option<&str>) -> i32 {
     let mut report = Report::new(
         cli,
         "exploration",
@@ -289,6 +295,9 @@ pub fn run_prop(cli: &Cli) -> i32 {
         for (fi, w) in findings {
             report.violation(&fi.signature, &fi.what, w);
         }
+    }
+    if let Some(prefix) = only {
+        report.retain_violations(|sig| sig.starts_with(prefix));
     }
     report.finish()
 }
